@@ -162,6 +162,19 @@ pub fn oracle_num(case: &[u8], obs: &mut Obs) -> Result<(), Fail> {
             ensure!(b.as_i64() == Some(i) && b.is_i64(), "C08/i64/dom-readback", "{i} -> {ds:?} -> {:?}", b);
             let tv = sonic_rs::to_value(&x).map_err(|e| Fail::new("C08/u64/to_value", format!("{e}")))?;
             ensure!(tv.as_u64() == Some(x), "C08/u64/to_value", "to_value({x}) = {:?}", tv);
+            // every integer conversion into the DOM (From impls of Value and Number, collect)
+            let (us, is) = (x as usize, x as isize);
+            ensure!(Value::from(us).as_u64() == Some(us as u64) && sonic_rs::to_string(&Value::from(us)).ok() == Some(us.to_string()), "C08/usize/dom", "Value::from({us}usize) = {:?}", Value::from(us));
+            ensure!(Value::from(is).as_i64() == Some(is as i64) && sonic_rs::to_string(&Value::from(is)).ok() == Some(is.to_string()), "C08/isize/dom", "Value::from({is}isize) = {:?}", Value::from(is));
+            ensure!(sonic_rs::Number::from(us).as_u64() == Some(us as u64) && sonic_rs::Number::from(x).as_u64() == Some(x) && sonic_rs::Number::from(i).as_i64() == Some(i) && sonic_rs::Number::from(is).as_i64() == Some(is as i64), "C08/number/from", "Number::from of {x} as u64/i64/usize/isize is wrong");
+            let arr: Value = vec![us, 0usize].into_iter().collect();
+            ensure!(sonic_rs::to_string(&arr).ok() == Some(format!("[{us},0]")), "C08/usize/dom", "collect::<Value>() of [{us}usize, 0] = {:?}", sonic_rs::to_string(&arr));
+            for (w, t) in [((x as u32) as u64, sonic_rs::to_string(&Value::from(x as u32))), ((x as u16) as u64, sonic_rs::to_string(&Value::from(x as u16))), ((x as u8) as u64, sonic_rs::to_string(&Value::from(x as u8)))] {
+                ensure!(t.ok() == Some(w.to_string()), "C08/uN/dom", "Value::from of a narrower unsigned {w} serializes wrongly");
+            }
+            for (w, t) in [((x as i32) as i64, sonic_rs::to_string(&Value::from(x as i32))), ((x as i16) as i64, sonic_rs::to_string(&Value::from(x as i16))), ((x as i8) as i64, sonic_rs::to_string(&Value::from(x as i8)))] {
+                ensure!(t.ok() == Some(w.to_string()), "C08/iN/dom", "Value::from of a narrower signed {w} serializes wrongly");
+            }
             Ok(())
         }
         _ => {
@@ -214,6 +227,16 @@ pub fn oracle_raw(case: &[u8], obs: &mut Obs) -> Result<(), Fail> {
         let out = sonic_rs::to_string(&v).map_err(|e| Fail::new("C08/raw/dom/ser", format!("{e}")))?;
         let want = format!("{{\"a\":[{lit},{lit}]}}");
         ensure!(out == want, "C08/raw/dom/verbatim", "use_rawnumber DOM of {text:?} serializes to {out:?}");
+        // the numeric view of a raw node is that of the same literal parsed without raw mode
+        // (a literal beyond f64 has no plain parse: raw mode alone keeps it)
+        if let Ok(plain) = sonic_rs::from_str::<Value>(&format!("[{lit}]")) {
+            let (r, p) = (&v["a"][0], &plain[0]);
+            let view = |x: &Value| (x.as_f64().map(f64::to_bits), x.as_u64(), x.as_i64(), x.is_f64(), x.is_u64(), x.is_i64(), x.is_number());
+            ensure!(view(r) == view(p), "C08/raw/dom/numeric-view", "raw node {lit}: (as_f64 bits, as_u64, as_i64, is_f64, is_u64, is_i64, is_number) = {:?}, the plain parse of the literal gives {:?}", view(r), view(p));
+            ensure!((r == p) && (p == r), "C08/raw/dom/numeric-view", "raw node {lit} != the plain parse of the same literal");
+            let back: Result<f64, _> = sonic_rs::from_value(r);
+            ensure!(back.ok().map(f64::to_bits) == p.as_f64().map(f64::to_bits), "C08/raw/dom/numeric-view", "from_value::<f64>(raw node {lit}) differs from the plain parse");
+        }
         // ... also after the containers holding them were edited, cloned or the number moved
         use sonic_rs::JsonValueMutTrait;
         let text = format!("{{\"o\":{{\"n\":{lit}}},\"a\":[{lit},[{lit}]]}}");
